@@ -169,6 +169,16 @@ CHECKS = {
              "signed-era types; Code310 encoder.",
         technique="TLC-enumerated mappings frozen by xdis; TLC trace validation of the frozen bytes with the reference line-table reader; CPython as second decoder",
     ),
+    "C16": dict(
+        category="model_checking",
+        text="Spec S13 (CodeConv.tla): Fields(host), ClassFor(host) and the actions ToPortable / ToNative / Replace. Under every host 3.8-3.13 each "
+             "native code object of the sampled standard-library modules is converted with codeType2Portable, back with to_native(), and copied "
+             "with replace(); TLC replays the three actions on the recorded field maps (the host's real attribute set: co_linetable and "
+             "co_exceptiontable included) and checks class, field preservation both ways, changed-copy and unchanged-original.",
+        design_ref="DESIGN.md section 5 C16, spec S13",
+        note="Field values compared through digests. Quick: 8 modules per host (about 500 code objects each); thorough: 70 modules.",
+        technique="TLA+ conversion state machine; TLC trace validation of recorded conversions under every host",
+    ),
 }
 
 NOT_YET = "check not built yet in this round (planned: see DESIGN.md section 5); not claimed until its machinery exists"
